@@ -8,6 +8,8 @@ package main
 import (
 	"bufio"
 	"crypto/rand"
+	"crypto/rsa"
+	stdx509 "crypto/x509"
 	"crypto/x509/pkix"
 	"encoding/hex"
 	"encoding/json"
@@ -24,13 +26,16 @@ import (
 )
 
 type advScenario struct {
+	Proto    string `json:"proto"` // "gm" (default) or "tls"
+	Kx       string `json:"kx"`    // "ecc" (GMSSL), "rsa", "ecdhe"
+	Suite    string `json:"suite"` // "CBC" or "GCM"
+	Policy   string `json:"policy"`
 	Verify   bool   `json:"verify"`
 	SignCert string `json:"signCert"`
 	EncCert  string `json:"encCert"`
 	SignKey  string `json:"signKey"`
 	EncKey   string `json:"encKey"`
 	Ske      string `json:"ske"`
-	Cauth    bool   `json:"cauth"`
 	CliCert  string `json:"cliCert"`
 	CliKey   string `json:"cliKey"`
 	Cv       string `json:"cv"`
@@ -46,8 +51,12 @@ type advPKI struct {
 	cli                map[string]gmtls.Certificate
 	enc2               gmtls.Certificate // a second, equally trusted encryption certificate
 	roots, clientRoots *x509.CertPool
-	err                error
-	once               sync.Once
+	// the TLS side: RSA certificates under an RSA CA (made with the standard library)
+	tlsSrv, tlsCli           map[string]gmtls.Certificate
+	tlsRoots, tlsClientRoots *x509.CertPool
+	spareRSA                 *rsa.PrivateKey
+	err                      error
+	once                     sync.Once
 }
 
 var adv advPKI
@@ -110,19 +119,106 @@ func loadAdvPKI() (*advPKI, error) {
 		}
 		adv.roots = poolOf(adv.ca.cert)
 		adv.clientRoots = poolOf(adv.ca.cert)
+		fail(adv.makeTLS(now))
 	})
 	return &adv, adv.err
 }
 
 func withOtherKey(c gmtls.Certificate) gmtls.Certificate {
+	if _, isRSA := c.PrivateKey.(*rsa.PrivateKey); isRSA {
+		return gmtls.Certificate{Certificate: c.Certificate, PrivateKey: adv.spareRSA, Leaf: c.Leaf}
+	}
 	k, _ := sm2.GenerateKey(rand.Reader)
 	return gmtls.Certificate{Certificate: c.Certificate, PrivateKey: k, Leaf: c.Leaf}
 }
 
+// RSA CA and leaves for the TLS scenarios, produced by the Go standard library
+func (p *advPKI) makeTLS(now time.Time) error {
+	type rca struct {
+		cert *stdx509.Certificate
+		key  *rsa.PrivateKey
+		der  []byte
+	}
+	newCA := func() (*rca, error) {
+		k, err := rsa.GenerateKey(rand.Reader, 2048)
+		if err != nil {
+			return nil, err
+		}
+		t := &stdx509.Certificate{SerialNumber: nextSerial(), Subject: pkix.Name{CommonName: "verif trusted RSA CA", Organization: []string{"verif"}},
+			NotBefore: now.Add(-100 * time.Hour), NotAfter: now.Add(1000 * time.Hour), IsCA: true, BasicConstraintsValid: true,
+			KeyUsage: stdx509.KeyUsageCertSign | stdx509.KeyUsageCRLSign}
+		der, err := stdx509.CreateCertificate(rand.Reader, t, t, &k.PublicKey, k)
+		if err != nil {
+			return nil, err
+		}
+		c, err := stdx509.ParseCertificate(der)
+		return &rca{c, k, der}, err
+	}
+	ca, err := newCA()
+	if err != nil {
+		return err
+	}
+	rogue, err := newCA() // same name, other key
+	if err != nil {
+		return err
+	}
+	var ferr error
+	mk := func(ca *rca, name string, eku []stdx509.ExtKeyUsage, nb, na time.Time) gmtls.Certificate {
+		k, err := rsa.GenerateKey(rand.Reader, 2048)
+		if err != nil {
+			ferr = err
+			return gmtls.Certificate{}
+		}
+		t := &stdx509.Certificate{SerialNumber: nextSerial(), Subject: pkix.Name{CommonName: name, Organization: []string{"verif"}},
+			NotBefore: nb, NotAfter: na, DNSNames: []string{name}, ExtKeyUsage: eku,
+			KeyUsage: stdx509.KeyUsageDigitalSignature | stdx509.KeyUsageKeyEncipherment}
+		der, err := stdx509.CreateCertificate(rand.Reader, t, ca.cert, &k.PublicKey, ca.key)
+		if err != nil {
+			ferr = err
+			return gmtls.Certificate{}
+		}
+		leaf, err := x509.ParseCertificate(der)
+		if err != nil {
+			ferr = err
+		}
+		return gmtls.Certificate{Certificate: [][]byte{der}, PrivateKey: k, Leaf: leaf}
+	}
+	both := []stdx509.ExtKeyUsage{stdx509.ExtKeyUsageServerAuth, stdx509.ExtKeyUsageClientAuth}
+	ok0, ok1 := now.Add(-time.Hour), now.Add(24*time.Hour)
+	wc := mk(rogue, "localhost", both, ok0, ok1)
+	wc.Certificate = append(wc.Certificate, rogue.der)
+	p.tlsSrv = map[string]gmtls.Certificate{
+		"good":              mk(ca, "localhost", both, ok0, ok1),
+		"untrusted":         mk(rogue, "localhost", both, ok0, ok1),
+		"untrusted_with_ca": wc,
+		"expired":           mk(ca, "localhost", both, now.Add(-48*time.Hour), now.Add(-24*time.Hour)),
+		"notyet":            mk(ca, "localhost", both, now.Add(24*time.Hour), now.Add(48*time.Hour)),
+		"wrongname":         mk(ca, "other.example", both, ok0, ok1),
+		"wrongeku":          mk(ca, "localhost", []stdx509.ExtKeyUsage{stdx509.ExtKeyUsageClientAuth}, ok0, ok1),
+	}
+	p.tlsCli = map[string]gmtls.Certificate{
+		"good":      mk(ca, "client", both, ok0, ok1),
+		"untrusted": mk(rogue, "client", both, ok0, ok1),
+		"expired":   mk(ca, "client", both, now.Add(-48*time.Hour), now.Add(-24*time.Hour)),
+		"notyet":    mk(ca, "client", both, now.Add(24*time.Hour), now.Add(48*time.Hour)),
+	}
+	if ferr != nil {
+		return ferr
+	}
+	cac, err := x509.ParseCertificate(ca.der)
+	if err != nil {
+		return err
+	}
+	p.tlsRoots, p.tlsClientRoots = poolOf(cac), poolOf(cac)
+	p.spareRSA, err = rsa.GenerateKey(rand.Reader, 2048)
+	return err
+}
+
 // bytes captured from an earlier honest session under the same certificates
 type advReplay struct {
-	ske, cv []byte
-	sr, cr  string // the randoms of the recorded session
+	ske, cv       []byte // GMSSL: the bytes seen at the peer fault points
+	skeMsg, cvMsg []byte // TLS: the whole handshake messages as seen on the wire
+	sr, cr        string // the randoms of the recorded session
 }
 
 // a reproducible random source: SM3(seed || counter)
@@ -183,7 +279,7 @@ func advByte(s *advScenario, msg []byte, toServer bool) []byte {
 	return m
 }
 
-func advRewrite(mitm string, msg []byte, p *advPKI, toServer bool) []byte {
+func advRewrite(mitm string, msg []byte, p *advPKI, toServer bool, suites []uint16) []byte {
 	m := append([]byte(nil), msg...)
 	t := m[0]
 	flipLast := func() []byte { m[len(m)-1] ^= 1; return m }
@@ -207,11 +303,12 @@ func advRewrite(mitm string, msg []byte, p *advPKI, toServer bool) []byte {
 		return hsMsg(t, nb)
 	case mitm == "sh_suite" && t == 2:
 		p0 := 4 + 34 + 1 + int(m[4+34])
-		if m[p0] == 0xe0 && m[p0+1] == 0x13 {
-			m[p0+1] = 0x53
-		} else {
-			m[p0], m[p0+1] = 0xe0, 0x13
+		// the other suite the client offered
+		to := suites[0]
+		if m[p0] == byte(to>>8) && m[p0+1] == byte(to) {
+			to = suites[1]
 		}
+		m[p0], m[p0+1] = byte(to>>8), byte(to)
 		return m
 	case mitm == "ccert_bit" && t == 11 && toServer:
 		// last byte of the (single) client certificate: inside its signature value
@@ -225,7 +322,7 @@ func advRewrite(mitm string, msg []byte, p *advPKI, toServer bool) []byte {
 			certs = append(certs, append([]byte(nil), b[q+3:q+3+l]...))
 			q += 3 + l
 		}
-		if len(certs) < 2 {
+		if len(certs) < 2 && mitm != "cert_bit" || len(certs) == 0 {
 			return m
 		}
 		switch mitm {
@@ -261,6 +358,7 @@ type advObs struct {
 	Timeout                  bool
 	Skipped                  string
 	SrvRandom, CliRandom     string
+	Suite, WantSuite         uint16 // negotiated (client's view) / the first suite of the scenario's list
 }
 
 func runAdv(s *advScenario, replay *advReplay, capture *advReplay) (advObs, error) {
@@ -269,26 +367,80 @@ func runAdv(s *advScenario, replay *advReplay, capture *advReplay) (advObs, erro
 	if err != nil {
 		return o, err
 	}
-	sign, enc := p.sign[s.SignCert], p.enc[s.EncCert]
-	if s.SignKey == "wrong" {
-		sign = withOtherKey(sign)
+	if s.Proto == "" {
+		s.Proto, s.Kx = "gm", "ecc"
 	}
-	if s.EncKey == "wrong" {
-		enc = withOtherKey(enc)
+	if s.Policy == "" {
+		s.Policy = "none"
 	}
-	suites := []uint16{gmtls.GMTLS_SM2_WITH_SM4_SM3, gmtls.GMTLS_ECC_SM4_GCM_SM3}
-	sc := &gmtls.Config{GMSupport: &gmtls.GMSupport{}, Certificates: []gmtls.Certificate{sign, enc}, CipherSuites: suites, SessionTicketsDisabled: true}
-	cc := &gmtls.Config{GMSupport: &gmtls.GMSupport{}, RootCAs: p.roots, ServerName: "localhost", CipherSuites: suites, InsecureSkipVerify: !s.Verify}
-	if s.Cauth {
-		sc.ClientAuth = gmtls.RequireAndVerifyClientCert
+	gm := s.Proto == "gm"
+	var suites []uint16
+	var sc, cc *gmtls.Config
+	cliCerts := p.cli
+	if gm {
+		sign, enc := p.sign[s.SignCert], p.enc[s.EncCert]
+		if s.SignKey == "wrong" {
+			sign = withOtherKey(sign)
+		}
+		if s.EncKey == "wrong" {
+			enc = withOtherKey(enc)
+		}
+		suites = []uint16{gmtls.GMTLS_SM2_WITH_SM4_SM3, gmtls.GMTLS_ECC_SM4_GCM_SM3}
+		if s.Suite == "GCM" {
+			suites[0], suites[1] = suites[1], suites[0]
+		}
+		sc = &gmtls.Config{GMSupport: &gmtls.GMSupport{}, Certificates: []gmtls.Certificate{sign, enc}, CipherSuites: suites, SessionTicketsDisabled: true}
+		cc = &gmtls.Config{GMSupport: &gmtls.GMSupport{}, RootCAs: p.roots, ServerName: "localhost", CipherSuites: suites, InsecureSkipVerify: !s.Verify}
 		sc.ClientCAs = p.clientRoots
-		cl := p.cli[s.CliCert]
+	} else {
+		cert, ok := p.tlsSrv[s.SignCert]
+		if !ok {
+			return o, fmt.Errorf("no TLS certificate of kind %q", s.SignCert)
+		}
+		if s.SignKey == "wrong" {
+			cert = withOtherKey(cert)
+		}
+		switch s.Kx + "/" + s.Suite {
+		case "rsa/CBC":
+			suites = []uint16{gmtls.TLS_RSA_WITH_AES_128_CBC_SHA, gmtls.TLS_RSA_WITH_AES_128_GCM_SHA256}
+		case "rsa/GCM":
+			suites = []uint16{gmtls.TLS_RSA_WITH_AES_128_GCM_SHA256, gmtls.TLS_RSA_WITH_AES_128_CBC_SHA}
+		case "ecdhe/CBC":
+			suites = []uint16{gmtls.TLS_ECDHE_RSA_WITH_AES_256_CBC_SHA, gmtls.TLS_ECDHE_RSA_WITH_AES_128_GCM_SHA256}
+		case "ecdhe/GCM":
+			suites = []uint16{gmtls.TLS_ECDHE_RSA_WITH_AES_128_GCM_SHA256, gmtls.TLS_ECDHE_RSA_WITH_AES_256_CBC_SHA}
+		default:
+			return o, fmt.Errorf("unknown TLS combination %s/%s", s.Kx, s.Suite)
+		}
+		sc = &gmtls.Config{Certificates: []gmtls.Certificate{cert}, CipherSuites: suites, SessionTicketsDisabled: true, MinVersion: gmtls.VersionTLS12, MaxVersion: gmtls.VersionTLS12}
+		cc = &gmtls.Config{RootCAs: p.tlsRoots, ServerName: "localhost", CipherSuites: suites, InsecureSkipVerify: !s.Verify, MinVersion: gmtls.VersionTLS12, MaxVersion: gmtls.VersionTLS12}
+		sc.ClientCAs = p.tlsClientRoots
+		cliCerts = p.tlsCli
+	}
+	switch s.Policy {
+	case "none":
+	case "request":
+		sc.ClientAuth = gmtls.RequestClientCert
+	case "requireany":
+		sc.ClientAuth = gmtls.RequireAnyClientCert
+	case "verifyifgiven":
+		sc.ClientAuth = gmtls.VerifyClientCertIfGiven
+	case "require":
+		sc.ClientAuth = gmtls.RequireAndVerifyClientCert
+	default:
+		return o, fmt.Errorf("unknown policy %q", s.Policy)
+	}
+	if s.Policy != "none" && s.CliCert != "none" {
+		cl := cliCerts[s.CliCert]
 		if s.CliCert == "good_then_other" {
-			other := p.cli["untrusted"]
-			cl = gmtls.Certificate{Certificate: [][]byte{p.cli["good"].Certificate[0], other.Certificate[0]}, PrivateKey: p.cli["good"].PrivateKey}
+			other := cliCerts["untrusted"]
+			cl = gmtls.Certificate{Certificate: [][]byte{cliCerts["good"].Certificate[0], other.Certificate[0]}, PrivateKey: cliCerts["good"].PrivateKey}
 			if s.CliKey == "of_other" {
 				cl.PrivateKey = other.PrivateKey
 			}
+		}
+		if cl.PrivateKey == nil {
+			return o, fmt.Errorf("no client certificate of kind %q", s.CliCert)
 		}
 		if s.CliKey == "wrong" {
 			cl = withOtherKey(cl)
@@ -308,7 +460,7 @@ func runAdv(s *advScenario, replay *advReplay, capture *advReplay) (advObs, erro
 	cli := gmtls.Client(c1, cc)
 	srv := gmtls.Server(s2, sc)
 	// peer faults
-	if s.Ske != "honest" || s.Cv != "honest" || capture != nil {
+	if gm && (s.Ske != "honest" || s.Cv != "honest" || capture != nil) {
 		f := func(site string, honest []byte) ([]byte, bool) {
 			if capture != nil {
 				if site == "ske" {
@@ -342,8 +494,29 @@ func runAdv(s *advScenario, replay *advReplay, capture *advReplay) (advObs, erro
 	if s.Ske == "otherenccert" {
 		mitm = "cert_other_enc"
 	}
-	mk := func(toClient bool) *msgFilter { return nil }
-	_ = mk
+	// TLS: the same peer deviations, realised on the wire (the server's own ServerKeyExchange / the client's own
+	// CertificateVerify is replaced, dropped or damaged before the other end sees it)
+	wireFaults := !gm && (s.Ske != "honest" || s.Cv != "honest" || capture != nil)
+	wire := func(msg []byte, toServer bool) ([]byte, bool) {
+		switch {
+		case capture != nil && msg[0] == 12 && !toServer:
+			capture.skeMsg = append([]byte(nil), msg...)
+		case capture != nil && msg[0] == 15 && toServer:
+			capture.cvMsg = append([]byte(nil), msg...)
+		case capture != nil:
+		case msg[0] == 12 && !toServer && s.Ske == "omitted":
+			return nil, false
+		case msg[0] == 12 && !toServer && (s.Ske == "otherrandoms" || s.Ske == "same_server_random" || s.Ske == "same_client_random"):
+			return replay.skeMsg, true
+		case msg[0] == 12 && !toServer && s.Ske == "badsig":
+			b := append([]byte(nil), msg...)
+			b[len(b)-3] ^= 4
+			return b, true
+		case msg[0] == 15 && toServer && s.Cv == "othersession":
+			return replay.cvMsg, true
+		}
+		return msg, true
+	}
 	pumpRW := func(from, to net.Conn, toServer bool) {
 		var buf []byte
 		plain := true
@@ -366,7 +539,7 @@ func runAdv(s *advScenario, replay *advReplay, capture *advReplay) (advObs, erro
 			}
 			if plain && r.typ() == 20 {
 				plain = false
-			} else if plain && r.typ() == 22 && mitm != "none" {
+			} else if plain && r.typ() == 22 && (mitm != "none" || wireFaults) {
 				buf = append(buf, r.body...)
 				out = nil
 				for len(buf) >= 4 {
@@ -376,10 +549,14 @@ func runAdv(s *advScenario, replay *advReplay, capture *advReplay) (advObs, erro
 					}
 					msg := buf[:4+n]
 					buf = buf[4+n:]
-					if mitm == "byte" {
+					if wireFaults {
+						if m2, keep := wire(msg, toServer); keep {
+							out = append(out, frame(r.hdr, 22, m2))
+						}
+					} else if mitm == "byte" {
 						out = append(out, frame(r.hdr, 22, advByte(s, msg, toServer)))
 					} else {
-						out = append(out, frame(r.hdr, 22, advRewrite(mitm, msg, p, toServer)))
+						out = append(out, frame(r.hdr, 22, advRewrite(mitm, msg, p, toServer, suites)))
 					}
 				}
 			}
@@ -405,6 +582,7 @@ func runAdv(s *advScenario, replay *advReplay, capture *advReplay) (advObs, erro
 		o.CliPanic = fmt.Sprint(r.cliPanic)
 	} else {
 		o.CliComplete = cli.ConnectionState().HandshakeComplete && r.cliErr == nil
+		o.Suite, o.WantSuite = cli.ConnectionState().CipherSuite, suites[0]
 	}
 	if r.srvPanic != nil {
 		o.SrvPanic = fmt.Sprint(r.srvPanic) + string(debugStack())
@@ -429,17 +607,30 @@ func c08run(args []string) error {
 	defer outf.Close()
 	w := bufio.NewWriter(outf)
 	defer w.Flush()
-	// an earlier honest session under the same certificates supplies the material to replay
-	var rep advReplay
-	hon := advScenario{Verify: true, SignCert: "good", EncCert: "good", SignKey: "right", EncKey: "right", Ske: "honest", Cauth: true,
-		CliCert: "good", CliKey: "right", Cv: "honest", Mitm: "none"}
-	o, err := runAdv(&hon, nil, &rep)
-	if err != nil {
-		return err
-	}
-	rep.sr, rep.cr = o.SrvRandom, o.CliRandom
-	if !o.CliComplete || !o.SrvComplete || rep.ske == nil || rep.cv == nil || rep.sr == "" || rep.cr == "" {
-		return fmt.Errorf("honest capture run failed: %+v", o)
+	// an earlier honest session under the same certificates supplies the material to replay (one per key exchange)
+	reps := map[string]*advReplay{}
+	for _, k := range [][2]string{{"gm", "ecc"}, {"tls", "rsa"}, {"tls", "ecdhe"}} {
+		rep := &advReplay{}
+		hon := advScenario{Proto: k[0], Kx: k[1], Suite: "CBC", Verify: true, SignCert: "good", EncCert: "good", SignKey: "right", EncKey: "right", Ske: "honest",
+			Policy: "require", CliCert: "good", CliKey: "right", Cv: "honest", Mitm: "none"}
+		o, err := runAdv(&hon, nil, rep)
+		if err != nil {
+			return err
+		}
+		rep.sr, rep.cr = o.SrvRandom, o.CliRandom
+		okc := rep.sr != "" && rep.cr != ""
+		switch k[1] {
+		case "ecc":
+			okc = okc && rep.ske != nil && rep.cv != nil
+		case "rsa":
+			okc = okc && rep.cvMsg != nil
+		case "ecdhe":
+			okc = okc && rep.skeMsg != nil && rep.cvMsg != nil
+		}
+		if !o.CliComplete || !o.SrvComplete || !okc {
+			return fmt.Errorf("honest capture run %v failed: %+v", k, o)
+		}
+		reps[k[0]+"/"+k[1]] = rep
 	}
 	sc := bufio.NewScanner(in)
 	sc.Buffer(make([]byte, 1<<20), 1<<26)
@@ -454,7 +645,14 @@ func c08run(args []string) error {
 		if err := json.Unmarshal(row.Case, &s); err != nil {
 			return err
 		}
-		o, err := runAdv(&s, &rep, nil)
+		if s.Proto == "" {
+			s.Proto, s.Kx = "gm", "ecc"
+		}
+		rep := reps[s.Proto+"/"+s.Kx]
+		if rep == nil {
+			return fmt.Errorf("no recorded session for %s/%s", s.Proto, s.Kx)
+		}
+		o, err := runAdv(&s, rep, nil)
 		if err != nil {
 			return err
 		}
